@@ -64,6 +64,8 @@ pub fn trace(args: &[String]) {
         masks += 1;
         let i = write_reg(&mut core, 0xff41, en); emit(&mut out, &mut core, "wstat", en as u64, i);
         let i = write_reg(&mut core, 0xff45, lyc); emit(&mut out, &mut core, "wlyc", lyc as u64, i);
+        let lcdc = [0x00u8, 0x91, 0x11, 0x80][(masks / 3 % 4) as usize];
+        let i = write_reg(&mut core, 0xff40, lcdc); emit(&mut out, &mut core, "wlcdc", lcdc as u64, i);
         let mut total = 0usize;
         let style = rng.below(4);
         while total < 3 * 70224 + 4000 {
@@ -89,6 +91,9 @@ pub fn trace(args: &[String]) {
       },
       1 | 2 => { let v = if rng.chance(1, 2) { rng.byte() } else { (rng.byte() & 0xf) << 3 };
                  let i = write_reg(&mut core, 0xff41, v); emit(&mut out, &mut core, "wstat", v as u64, i); },
+      5 => { // LCDC (incl. the display-enable bit): the line/mode schedule runs whatever it holds
+             let v = *rng.pick(&[0x00u8, 0x11, 0x80, 0x91, 0xff, 0x7f]);
+             let i = write_reg(&mut core, 0xff40, v); emit(&mut out, &mut core, "wlcdc", v as u64, i); },
       3 | 4 => { let v = if rng.chance(1, 4) { rng.byte() } else { *rng.pick(&[0u8, 1, 143, 144, 145, 153, 154]) };
                  let i = write_reg(&mut core, 0xff45, v); emit(&mut out, &mut core, "wlyc", v as u64, i); },
       _ => { let b = if rng.chance(2, 3) { *rng.pick(&BATCHES) } else { 4 * (1 + rng.below(5000) as usize) };
